@@ -207,6 +207,9 @@ impl<T> SocksRequest<T> {
         let (t, addr, port) = match &self.target {
             TargetAddress::DomainPort(domain, port) => {
                 let mut x = Vec::from(domain.as_bytes());
+                if x.len() > 255 {
+                    bail!("domain name too long for socks5: {} bytes", x.len());
+                }
                 x.insert(0, x.len() as u8);
                 (SOCKS_ATYP_DOMAIN, x, *port)
             }
@@ -335,6 +338,9 @@ impl SocksAuthClient<Option<(String, String)>> for PasswordAuth {
             SOCKS_AUTH_NONE => Ok(()),
             SOCKS_AUTH_USRPWD => {
                 let (user, pass) = data.as_ref().unwrap();
+                if user.len() > 255 || pass.len() > 255 {
+                    bail!("username or password too long for socks5");
+                }
                 socket.write_u8(1).await.context("auth version")?;
                 socket
                     .write_u8(user.len() as u8)
@@ -453,6 +459,9 @@ impl SocksResponse {
         let (t, addr, port) = match &self.target {
             TargetAddress::DomainPort(domain, port) => {
                 let bytes = domain.as_bytes();
+                if bytes.len() > 255 {
+                    bail!("domain name too long for socks5: {} bytes", bytes.len());
+                }
                 let mut x = vec![bytes.len() as u8];
                 x.extend(bytes);
                 (SOCKS_ATYP_DOMAIN, x, *port)
